@@ -797,11 +797,11 @@ def check_C10(run, replay):
 
 
 # ------------------------------------------------------------------------------------------ C15 C16 C17
-def cli_check(run, mode, n, timeout=6000):
+def cli_check(run, mode, n, timeout=6000, tag="cli"):
     """record runs of the built binary -> TLC (spec/MC_Cli.tla) -> judge; returns (full cases, result rows)"""
     exe = build_cli()
-    tlc_path = run.path("cli.tlc.ndjson")
-    full_path = run.path("cli.full.ndjson")
+    tlc_path = run.path(tag + ".tlc.ndjson")
+    full_path = run.path(tag + ".full.ndjson")
     args = ["record", "cli", "--mode", mode, "--seed", run.seed, "--n", n, "--exe", exe, "--dir", run.path("files"),
             "--out-tlc", tlc_path, "--out-full", full_path]
     if run.tier == "thorough":
@@ -809,11 +809,11 @@ def cli_check(run, mode, n, timeout=6000):
     info = json.loads(harness(args, timeout=timeout).strip().splitlines()[-1])
     res = tlc("MC_Cli", env={"CASES": tlc_path}, timeout=timeout)
     run.add_tlc(res)
-    exp_path = run.path("cli.exp.ndjson")
+    exp_path = run.path(tag + ".exp.ndjson")
     write_ndjson(exp_path, [{"id": i, "exp": v} for (i, v) in res.out("OUT")])
-    out_path = run.path("cli.res.ndjson")
+    out_path = run.path(tag + ".res.ndjson")
     harness(["replay", "cli", "--full", full_path, "--exp", exp_path, "--out", out_path], timeout=timeout)
-    run.notes["recorded"] = info
+    run.notes["recorded" if tag == "cli" else "recorded_" + tag] = info
     return {c["id"]: c for c in read_ndjson(full_path)}, read_ndjson(out_path)
 
 
@@ -864,6 +864,12 @@ def check_C16(run, replay):
                        "the reference solve orders actions as the tool does (by name) so that both perform the same operations"]
     cases, rows = cli_check(run, "c16", 6 if run.tier == "quick" else 30)
     cli_absorb(run, cases, rows, "cli")
+    # the JSON language itself: documents as written (member order, names in tricky byte order, what the documentation
+    # leaves open) -> meaning by JsonDsl.tla -> the printed solution must be that of the meant game
+    jcases, jrows = cli_check(run, "cjson-meaning", 6 if run.tier == "quick" else 40, tag="json")
+    cli_absorb(run, jcases, jrows, "clijson")
+    run.notes["json_documents_as_written"] = len(jrows)
+    rows = rows + jrows
     run.notes["solution_predicted_by_tlc"] = sum(1 for r in rows if r.get("solution_exact"))
     run.notes["clip_decisions"] = {"clipped": sum(1 for r in rows if r.get("clipped") is True),
                                    "kept": sum(1 for r in rows if r.get("clipped") is False)}
@@ -879,7 +885,10 @@ def check_C17(run, replay):
                 "whose number is another's name, two infosets of one player given one name, one name used by both players, "
                 "a node moved into another infoset (perfect recall), duplicate action, undefined / conflicting / null "
                 "outcome, bad player number, truncated text, payoff literal 1e999, unbalanced braces, garbage; JSON: "
-                "truncated, renamed / missing fields, wrong types, probability zero / negative, no actions, two variants) "
+                "truncated, renamed / missing fields, wrong types, probability zero / negative, no actions, two variants; and the "
+                "JSON language as specified by JsonDsl.tla: 34 faults (no / two / unknown variants, node of another JSON type, "
+                "each mandatory member missing / twice / of the wrong type, malformed earlier occurrence of a repeated "
+                "name, contract faults) applied to documents as written, the specification deciding the category) "
                 "x input routes {stdin, .efg, .json, .txt} x --input-format {auto, gambit, json}; TLC (Cli.tla Categories, "
                 "Efg.tla, Contract.tla) states the admissible diagnostic categories of each (document, parser); the binary "
                 "must exit non-zero with a diagnostic of one of them, empty stdout and no output file - or solve the input "
@@ -888,6 +897,16 @@ def check_C17(run, replay):
                        "a document within the 0.1% tolerance must be accepted, one beyond it rejected (README)"]
     cases, rows = cli_check(run, "c17", 8 if run.tier == "quick" else 40)
     cli_absorb(run, cases, rows, "cli17")
+    # the JSON language (JsonDsl.tla): the model on its own universe, then one fault of the catalogue per document as
+    # written; the specification - not the harness - says whether a document is in the language
+    res = tlc("MC_JsonDsl", env={"MAXENT": 2 if run.tier == "quick" else 3}, timeout=3000, workers=8)
+    run.add_tlc(res)
+    run.notes["json_language_model_documents"] = res.distinct
+    jcases, jrows = cli_check(run, "cjson-faults", 6 if run.tier == "quick" else 40, tag="json")
+    cli_absorb(run, jcases, jrows, "clijson17")
+    for r in jrows:
+        r["fault"] = "json:" + str((jcases.get(r["id"]) or {}).get("fault"))
+    rows = rows + jrows
     faults = {}
     for r in rows:
         f = str(r.get("fault"))
